@@ -194,11 +194,11 @@ def check(run):
     rng = run.rng
     maxdepth = 2 if run.tier == "quick" else 3
     wf = []
-    n = 260 if run.tier == "quick" else 5000
+    n = 260 if run.tier == "quick" else 2500
     for i in range(n):
         items, unit = gen_wellformed(rng, maxdepth if i % 4 else 1)
         wf.append((items, unit))
-    nasty = list(CORPUS_NASTY) + (CORPUS_NASTY_THOROUGH if run.tier == "thorough" else []) + [gen_nasty(rng) for _ in range(260 if run.tier == "quick" else 5000)]
+    nasty = list(CORPUS_NASTY) + (CORPUS_NASTY_THOROUGH if run.tier == "thorough" else []) + [gen_nasty(rng) for _ in range(260 if run.tier == "quick" else 2500)]
     # ---- oracle on the implementation: loop program vs hand-written copies, as parsed programs
     loop_src = ["".join(l + "\n" for l in render(items, 0, unit)) for items, unit in wf]
     hand_src = ["".join(l + "\n" for l in hand(items, [], unit)) for items, unit in wf]
